@@ -1,5 +1,7 @@
 import UgoVerif.Proofs.CompileSat
 import UgoVerif.Proofs.CompileWalk
+import UgoVerif.Proofs.CompileScan
+import UgoVerif.Proofs.CompileChain
 /-
   C05: the invariant of the compiler state under which no Go panic is reachable, the relation
   between the state before and after a compile step, and the facts about the primitive operations.
@@ -7,40 +9,7 @@ import UgoVerif.Proofs.CompileWalk
 namespace UgoVerif.Compile
 open UgoVerif UgoVerif.Go UgoVerif.Ast
 
-/-! ### symbol tables -/
-
-/-- a CONSTLIT symbol is constant and carries its literal value -/
-def SymOK (y : Symbol) : Prop := y.scope = .constLit → (y.constant = true ∧ y.constLit.isSome = true)
-def StoreOK (st : List (String × Symbol)) : Prop := ∀ p ∈ st, SymOK p.2
-def TablesOK (ts : List Table) : Prop := ∀ t ∈ ts, StoreOK t.store
-
-theorem lookupSym_ok {n : String} {y : Symbol} : ∀ {st : List (String × Symbol)}, StoreOK st → lookupSym n st = some y → SymOK y
-  | [], _, h => by simp [lookupSym] at h
-  | (k, v) :: r, hs, h => by
-    simp only [lookupSym] at h
-    split at h
-    · injection h with h; subst h; exact hs (k, v) (by simp)
-    · exact lookupSym_ok (fun p hp => hs p (by simp [hp])) h
-
-theorem putSym_ok {n : String} {y : Symbol} (hy : SymOK y) : ∀ {st : List (String × Symbol)}, StoreOK st → StoreOK (putSym n y st)
-  | [], _ => by intro p hp; simp [putSym] at hp; subst hp; exact hy
-  | (k, v) :: r, hs => by
-    simp only [putSym]
-    split
-    · intro p hp
-      simp at hp
-      rcases hp with hp | hp
-      · subst hp; exact hy
-      · exact hs p (by simp [hp])
-    · intro p hp
-      simp at hp
-      rcases hp with hp | hp
-      · subst hp; exact hs (k, v) (by simp)
-      · exact putSym_ok hy (fun p hp => hs p (by simp [hp])) p hp
-
-@[simp] theorem shadowBuiltin_store (bs : List (String × Nat)) (n : String) (t : Table) :
-    (shadowBuiltin bs n t).store = t.store := by
-  unfold shadowBuiltin; split <;> rfl
+/-! ### the invariant and the step relation -/
 
 theorem updateMaxDefs_length (n : Nat) : ∀ ts : List Table, (updateMaxDefs n ts).length = ts.length
   | [] => rfl
@@ -48,144 +17,87 @@ theorem updateMaxDefs_length (n : Nat) : ∀ ts : List Table, (updateMaxDefs n t
     simp only [updateMaxDefs]
     split <;> simp [updateMaxDefs_length n r]
 
-theorem updateMaxDefs_ok (n : Nat) : ∀ {ts : List Table}, TablesOK ts → TablesOK (updateMaxDefs n ts)
-  | [], _ => by intro t ht; simp [updateMaxDefs] at ht
-  | t :: r, h => by
-    have ht : StoreOK t.store := h t (by simp)
-    have hr : TablesOK r := fun t' ht' => h t' (by simp [ht'])
-    have h1 : StoreOK (if n > t.maxDefinition then { t with maxDefinition := n } else t).store := by
-      split <;> exact ht
-    simp only [updateMaxDefs]
-    split
-    · intro t' ht'
-      simp at ht'
-      rcases ht' with ht' | ht'
-      · subst ht'; exact h1
-      · exact updateMaxDefs_ok n hr t' ht'
-    · intro t' ht'
-      simp at ht'
-      rcases ht' with ht' | ht'
-      · subst ht'; exact h1
-      · exact hr t' ht'
-
-theorem resolveIn_spec (bs : List (String × Nat)) (d : List String) (n : String) :
-    ∀ {ts : List Table}, TablesOK ts →
-      TablesOK (resolveIn bs d n ts).2 ∧ (resolveIn bs d n ts).2.length = ts.length ∧
-      ∀ y, (resolveIn bs d n ts).1 = some y → SymOK y
-  | [], _ => by simp [resolveIn, TablesOK]
-  | t :: rest, h => by
-    have ht : StoreOK t.store := h t (by simp)
-    have hr : TablesOK rest := fun t' ht' => h t' (by simp [ht'])
-    unfold resolveIn
-    split
-    · rename_i sym hl
-      exact ⟨h, rfl, fun y hy => by injection hy with hy; subst hy; exact lookupSym_ok ht hl⟩
-    · cases rest with
-      | nil =>
-        simp only
-        split
-        · split
-          · rename_i idx _
-            refine ⟨?_, rfl, ?_⟩
-            · intro t' ht'
-              simp at ht'
-              subst ht'
-              exact putSym_ok (by intro hc; simp at hc) ht
-            · intro y hy; injection hy with hy; subst hy; intro hc; simp at hc
-          · exact ⟨h, rfl, fun y hy => by simp at hy⟩
-        · exact ⟨h, rfl, fun y hy => by simp at hy⟩
-      | cons t2 r2 =>
-        simp only
-        have ih := resolveIn_spec bs d n hr
-        cases hres : resolveIn bs d n (t2 :: r2) with
-        | mk r rest' =>
-          rw [hres] at ih
-          simp only at ih ⊢
-          obtain ⟨ih1, ih2, ih3⟩ := ih
-          cases r with
-          | none =>
-            refine ⟨?_, by simp [ih2], fun y hy => by simp at hy⟩
-            intro t' ht'
-            simp at ht'
-            rcases ht' with ht' | ht'
-            · subst ht'; exact ht
-            · exact ih1 t' ht'
-          | some sym =>
-            simp only
-            split
-            · refine ⟨?_, by simp [ih2], ?_⟩
-              · intro t' ht'
-                simp at ht'
-                rcases ht' with ht' | ht'
-                · subst ht'
-                  simp only [shadowBuiltin_store]
-                  exact putSym_ok (by intro hc; simp at hc) ht
-                · exact ih1 t' ht'
-              · intro y hy; injection hy with hy; subst hy; intro hc; simp at hc
-            · refine ⟨?_, by simp [ih2], fun y hy => by injection hy with hy; subst hy; exact ih3 _ rfl⟩
-              intro t' ht'
-              simp at ht'
-              rcases ht' with ht' | ht'
-              · subst ht'; exact ht
-              · exact ih1 t' ht'
-
-theorem findByNameAll_ok {n : String} {y : Symbol} : ∀ {ts : List Table}, TablesOK ts → findByNameAll n ts = some y → SymOK y
-  | [], _, h => by simp [findByNameAll] at h
-  | t :: r, hs, h => by
+/-- a CONSTLIT symbol found anywhere in the chain is constant and carries its value -/
+theorem findByNameAll_ok {cs : Array Const} {n : String} {y : Symbol} : ∀ {ts : List Table}, ChainOK cs ts →
+    findByNameAll n ts = some y → y.scope = .constLit → y.constant = true ∧ y.constLit.isSome = true
+  | [], _, h, _ => by simp [findByNameAll] at h
+  | t :: r, hs, h, hc => by
     simp only [findByNameAll] at h
     split at h
     · rename_i s hl
       injection h with h; subst h
-      exact lookupSym_ok (hs t (by simp)) hl
-    · exact findByNameAll_ok (fun t' ht' => hs t' (by simp [ht'])) h
+      exact (lookupSym_okx hs.1 hl).1 hc
+    · exact findByNameAll_ok hs.tail h hc
 
-/-! ### the invariant and the step relation -/
+/-- an instruction stream that decodes completely and whose operands are fine w.r.t. `L` -/
+def StreamOK (L : Lims) (a : Array UInt8) : Prop := Walk a 0 a.size ∧ TargetsOK L a
 
-/-- an instruction stream that decodes completely, whose jump / try targets are boundaries and
-    whose CONSTANT / CLOSURE operands are below `nc` (the size of the constant pool) -/
-def StreamOK (nc : Nat) (a : Array UInt8) : Prop := Walk a 0 a.size ∧ TargetsOK nc a
-
-theorem StreamOK.mono {nc nc' : Nat} {a : Array UInt8} (h : StreamOK nc a) (hn : nc ≤ nc') : StreamOK nc' a :=
+theorem StreamOK.mono {L L' : Lims} {a : Array UInt8} (h : StreamOK L a) (hn : L.le L') : StreamOK L' a :=
   ⟨h.1, h.2.mono hn⟩
 
-/-- a compiled function in the constant pool: its locals fit the frame, its stream is fine -/
-def FnOK (nc : Nat) (f : CFn) : Prop := f.numLocals ≤ 256 ∧ StreamOK nc f.insts
-def ConstsOK (cs : Array Const) : Prop := ∀ c ∈ cs.toList, ∀ f, c = .fn f → FnOK cs.size f
+/-- the stream of a finished function (`Bytecode()`): moreover every jump target lies strictly
+    inside the stream and the last instruction is RETURN -/
+def FinStream (L : Lims) (a : Array UInt8) : Prop := StreamOK L a ∧ JumpsStrict a ∧ EndsInReturn a
 
-theorem ConstsOK.push {cs : Array Const} (h : ConstsOK cs) {c : Const} (hc : ∀ f, c = .fn f → FnOK (cs.size + 1) f) :
+theorem FinStream.mono {L L' : Lims} {a : Array UInt8} (h : FinStream L a) (hn : L.le L') : FinStream L' a :=
+  ⟨h.1.mono hn, h.2⟩
+
+/-- a finished function with `nf` free variables, against the constant pool `cs`: its stream is fine
+    for `NumLocals` locals and `nf` free variables, and its parameters are among its locals -/
+def FinFn (cs : Array Const) (nf : Nat) (f : CFn) : Prop :=
+  FinStream ⟨cs, f.numLocals, nf⟩ f.insts ∧ f.numParams ≤ f.numLocals
+
+theorem FinFn.mono {cs cs' : Array Const} {nf : Nat} {f : CFn} (h : FinFn cs nf f) (hc : CPre cs cs') : FinFn cs' nf f :=
+  ⟨h.1.mono ⟨hc, Nat.le_refl _, Nat.le_refl _⟩, h.2⟩
+
+/-- a compiled function in the constant pool: its locals fit the frame, it is finished -/
+def FnOK (cs : Array Const) (f : CFn) : Prop := f.numLocals ≤ 256 ∧ ∃ nf, FinFn cs nf f
+
+theorem FnOK.mono {cs cs' : Array Const} {f : CFn} (h : FnOK cs f) (hc : CPre cs cs') : FnOK cs' f :=
+  ⟨h.1, h.2.imp fun _ h' => h'.mono hc⟩
+
+def ConstsOK (cs : Array Const) : Prop := ∀ c ∈ cs.toList, ∀ f, c = .fn f → FnOK cs f
+
+theorem ConstsOK.push {cs : Array Const} (h : ConstsOK cs) {c : Const} (hc : ∀ f, c = .fn f → FnOK (cs.push c) f) :
     ConstsOK (cs.push c) := by
   intro c' hc' f hf
-  simp only [Array.size_push]
   simp at hc'
   rcases hc' with hc' | hc'
-  · have := h c' (by simpa using hc') f hf
-    exact ⟨this.1, this.2.mono (by omega)⟩
+  · exact (h c' (by simpa using hc') f hf).mono (CPre.push _ _)
   · subst hc'; exact hc f hf
+
+/-- the limits the current instruction stream is judged against -/
+def limsOf (s : CState) : Lims := ⟨s.constants, fmd s.tables, fnf s.tables⟩
 
 structure Inv (s : CState) : Prop where
   ne : s.tables ≠ []
-  tabs : TablesOK s.tables
+  chain : ChainOK s.constants s.tables
   walk : Walk s.insts 0 s.insts.size
   loops : ∀ l ∈ s.loops, ∀ p, (p ∈ l.breaks ∨ p ∈ l.continues) → Bd s.insts p ∧ Jumpy s.insts p
   consts : ConstsOK s.constants
-  targets : TargetsOK s.constants.size s.insts
+  targets : TargetsOK (limsOf s) s.insts
+  bok : ∀ p ∈ s.builtins, p.2 < NB
 
 structure Rel (s s' : CState) : Prop where
-  tlen : s'.tables.length = s.tables.length
+  chain : ChainLE s.tables s'.tables
   pre : Pre s.insts s'.insts
   llen : s'.loops.length = s.loops.length
   ltail : s'.loops.tail = s.loops.tail
   lhead : ∀ l l', s.loops.head? = some l → s'.loops.head? = some l' → ∀ p,
     (p ∈ l'.breaks → p ∈ l.breaks ∨ s.insts.size ≤ p) ∧ (p ∈ l'.continues → p ∈ l.continues ∨ s.insts.size ≤ p)
-  csz : s.constants.size ≤ s'.constants.size
+  cpre : CPre s.constants s'.constants
+
+theorem Rel.tlen {s s' : CState} (h : Rel s s') : s'.tables.length = s.tables.length := h.chain.length
+theorem Rel.csz {s s' : CState} (h : Rel s s') : s.constants.size ≤ s'.constants.size := h.cpre.1
+theorem Rel.lims {s s' : CState} (h : Rel s s') : (limsOf s).le (limsOf s') := ⟨h.cpre, h.chain.fmd, h.chain.fnf⟩
 
 theorem Rel.refl (s : CState) : Rel s s :=
-  ⟨rfl, Pre.refl _, rfl, rfl, fun l l' h h' p => by rw [h] at h'; injection h' with h'; subst h'; exact ⟨.inl, .inl⟩,
-   Nat.le_refl _⟩
+  ⟨ChainLE.refl _, Pre.refl _, rfl, rfl, fun l l' h h' p => by rw [h] at h'; injection h' with h'; subst h'; exact ⟨.inl, .inl⟩,
+   CPre.refl _⟩
 
 theorem Rel.trans {s s' s'' : CState} (h : Rel s s') (h' : Rel s' s'') : Rel s s'' := by
-  refine ⟨h'.tlen.trans h.tlen, h.pre.trans h'.pre, h'.llen.trans h.llen, h'.ltail.trans h.ltail, ?_,
-    Nat.le_trans h.csz h'.csz⟩
+  refine ⟨h.chain.trans h'.chain, h.pre.trans h'.pre, h'.llen.trans h.llen, h'.ltail.trans h.ltail, ?_,
+    h.cpre.trans h'.cpre⟩
   intro l l'' hl hl'' p
   have hlen := h.llen
   cases hs' : s'.loops with
@@ -209,16 +121,22 @@ theorem Rel.trans {s s' s'' : CState} (h : Rel s s') (h' : Rel s' s'') : Rel s s
       · right; omega
 
 /-- a step that leaves the instruction stream and the loop stack alone -/
-theorem Rel.of_same {s s' : CState} (h1 : s'.tables.length = s.tables.length) (h2 : s'.insts = s.insts)
-    (h3 : s'.loops = s.loops) (h4 : s.constants.size ≤ s'.constants.size := by first | exact Nat.le_refl _ | simp) :
+theorem Rel.of_same {s s' : CState} (h1 : ChainLE s.tables s'.tables) (h2 : s'.insts = s.insts)
+    (h3 : s'.loops = s.loops) (h4 : CPre s.constants s'.constants := by first | exact CPre.refl _ | exact CPre.push _ _) :
     Rel s s' := by
   refine ⟨h1, by rw [h2]; exact Pre.refl _, by rw [h3], by rw [h3], ?_, h4⟩
   intro l l' h h' p; rw [h3, h] at h'; injection h' with h'; subst h'; exact ⟨.inl, .inl⟩
 
-theorem Inv.of_tables {s s' : CState} (h : Inv s) (h1 : s'.tables ≠ []) (h2 : TablesOK s'.tables)
-    (h3 : s'.insts = s.insts) (h4 : s'.loops = s.loops) (h5 : s'.constants = s.constants := by rfl) : Inv s' :=
+/-- a state that differs in its tables (and possibly grew its constant pool): the instruction stream
+    is judged against limits that only grew -/
+theorem Inv.of_tables {s s' : CState} (h : Inv s) (h1 : s'.tables ≠ []) (h2 : ChainOK s'.constants s'.tables)
+    (hl : (limsOf s).le (limsOf s')) (h3 : s'.insts = s.insts) (h4 : s'.loops = s.loops)
+    (h5 : s'.constants = s.constants := by rfl) (h6 : s'.builtins = s.builtins := by rfl) : Inv s' :=
   ⟨h1, h2, by rw [h3]; exact h.walk, by rw [h3, h4]; exact h.loops, by rw [h5]; exact h.consts,
-   by rw [h3, h5]; exact h.targets⟩
+   by rw [h3]; exact h.targets.mono hl, by rw [h6]; exact h.bok⟩
+
+theorem limsOf_le_of_chain {s s' : CState} (hc : ChainLE s.tables s'.tables) (h5 : s'.constants = s.constants) :
+    (limsOf s).le (limsOf s') := ⟨by show CPre s.constants s'.constants; rw [h5]; exact CPre.refl _, hc.fmd, hc.fnf⟩
 
 /-- `GoodP P m`: from a state satisfying the invariant `m` does not panic; on normal termination
     the invariant holds again, the states are related, and the result satisfies `P`. -/
@@ -253,6 +171,10 @@ theorem GoodP.throw_bare {α} {P : α → Prop} {msg : String} : GoodP P (throw 
 theorem GoodP.cunsupported {α} {P : α → Prop} {msg : String} : GoodP P (cunsupported msg : CM α) :=
   fun _ _ => Sat.cunsupported
 
+/-- `GoodS`: like `GoodP`, with a result condition that may mention the final state -/
+def GoodS {α} (P : α → CState → Prop) (m : CM α) : Prop :=
+  ∀ s, Inv s → Sat m s (fun a s' => Inv s' ∧ Rel s s' ∧ P a s')
+
 /-- reading the state -/
 theorem good_get : Good (get : CM CState) := fun s hs => Sat.get ⟨hs, Rel.refl s, trivial⟩
 
@@ -273,132 +195,167 @@ theorem good_headTable : Good headTable := by
   | nil => exact absurd ht hs.ne
   | cons t r => exact Sat.pure ⟨hs, Rel.refl s, trivial⟩
 
-/-- a modification of the table list that keeps its length and the symbol invariant -/
-theorem good_modTables {g : List Table → List Table} (hlen : ∀ ts, (g ts).length = ts.length)
-    (hok : ∀ ts, TablesOK ts → TablesOK (g ts)) : Good (modTables g) := by
+theorem ne_of_chainLE {ts ts' : List Table} (h : ChainLE ts ts') (hne : ts ≠ []) : ts' ≠ [] := by
+  intro he; have := h.length; rw [he] at this; simp at this; exact hne (List.eq_nil_of_length_eq_zero this.symm)
+
+/-- a modification of the table list that keeps the chain invariant and only grows the chain -/
+theorem good_modTables {g : List Table → List Table}
+    (hok : ∀ cs ts, ChainOK cs ts → ChainOK cs (g ts) ∧ ChainLE ts (g ts)) : Good (modTables g) := by
   intro s hs
   unfold modTables
   apply Sat.modify
-  refine ⟨hs.of_tables ?_ (hok _ hs.tabs) rfl rfl, Rel.of_same (hlen _) rfl rfl, trivial⟩
-  intro h
-  have := hlen s.tables
-  simp only at h
-  rw [h] at this
-  exact hs.ne (List.eq_nil_of_length_eq_zero this.symm)
+  obtain ⟨h1, h2⟩ := hok _ _ hs.chain
+  exact ⟨hs.of_tables (ne_of_chainLE h2 hs.ne) h1 (limsOf_le_of_chain h2 rfl) rfl rfl, Rel.of_same h2 rfl rfl, trivial⟩
 
-theorem good_modHead {f : Table → Table} (hok : ∀ t, StoreOK t.store → StoreOK (f t).store) : Good (modHead f) := by
+/-- a modification of the head table's store (and of fields the invariant does not read) -/
+theorem good_modHead {f : Table → Table}
+    (hok : ∀ cs nl nf t, StoreOKx cs nl nf t.store → StoreOKx cs nl nf (f t).store)
+    (hb : ∀ t, (f t).block = t.block := by intro t; simp)
+    (hm : ∀ t, (f t).maxDefinition = t.maxDefinition := by intro t; simp)
+    (hf : ∀ t, (f t).frees = t.frees := by intro t; simp)
+    (hp : ∀ t, (f t).numParams = t.numParams := by intro t; simp) : Good (modHead f) := by
   unfold modHead
   apply good_modTables
-  · intro ts; cases ts <;> simp
-  · intro ts h
-    cases ts with
-    | nil => exact h
-    | cons t r =>
-      intro t' ht'
-      simp at ht'
-      rcases ht' with ht' | ht'
-      · subst ht'; exact hok t (h t (by simp))
-      · exact h t' (by simp [ht'])
-
-theorem good_updateMaxDefs (n : Nat) : Good (modTables (updateMaxDefs n)) :=
-  good_modTables (updateMaxDefs_length n) (fun _ h => updateMaxDefs_ok n h)
+  intro cs ts h
+  cases ts with
+  | nil => exact ⟨h, trivial⟩
+  | cons t r =>
+    exact ⟨chain_replaceHead h (hb t) (hm t) (hf t) (hp t) (hok _ _ _ t h.1), chainLE_replaceHead (hb t) (hm t) (hf t)⟩
 
 theorem good_modify_misc {f : CState → CState} (h1 : ∀ s, (f s).tables = s.tables) (h2 : ∀ s, (f s).insts = s.insts)
-    (h3 : ∀ s, (f s).loops = s.loops) (h4 : ∀ s, (f s).constants = s.constants := by intro _; rfl) :
+    (h3 : ∀ s, (f s).loops = s.loops) (h4 : ∀ s, (f s).constants = s.constants := by intro _; rfl)
+    (h6 : ∀ s, (f s).builtins = s.builtins := by intro _; rfl) :
     Good (modify f : CM Unit) := by
   intro s hs
   apply Sat.modify
-  exact ⟨hs.of_tables (by rw [h1]; exact hs.ne) (by rw [h1]; exact hs.tabs) (h2 s) (h3 s) (h4 s),
-    Rel.of_same (by rw [h1]) (h2 s) (h3 s) (by rw [h4]; exact Nat.le_refl _), trivial⟩
+  have hc : ChainLE s.tables (f s).tables := by rw [h1]; exact ChainLE.refl _
+  exact ⟨hs.of_tables (by rw [h1]; exact hs.ne) (by rw [h1, h4]; exact hs.chain) (limsOf_le_of_chain hc (h4 s))
+      (h2 s) (h3 s) (h4 s) (h6 s),
+    Rel.of_same hc (h2 s) (h3 s) (by rw [h4]; exact CPre.refl _), trivial⟩
 
-/-- `updateSym` with an update that does not touch scope, constant flag or literal -/
+/-- `updateSym` with an update that keeps the symbol's scope, index, constant flag and literal
+    (or any update under which the symbol stays fine) -/
 theorem good_updateSym {name : String} {f : Symbol → Symbol}
-    (hf : ∀ y, SymOK y → SymOK (f y)) : Good (updateSym name f) := by
+    (hf : ∀ cs nl nf y, SymOKx cs nl nf y → SymOKx cs nl nf (f y)) : Good (updateSym name f) := by
   unfold updateSym
-  apply good_modHead
-  intro t ht
-  split
-  · rename_i sym hl
-    exact putSym_ok (hf _ (lookupSym_ok ht hl)) ht
-  · exact ht
+  refine good_modHead ?_ ?_ ?_ ?_ ?_
+  · intro cs nl nf t ht
+    split
+    · rename_i sym hl
+      exact putSym_okx (hf _ _ _ _ (lookupSym_okx ht hl)) ht
+    · exact ht
+  all_goals (intro t; split <;> rfl)
 
-theorem good_addConstant (k : CVal) : Good (addConstant k) := by
-  intro s hs
-  unfold addConstant
-  apply Sat.bind
-  apply Sat.get
-  split
-  · exact Sat.pure ⟨hs, Rel.refl s, trivial⟩
-  · apply Sat.bind
-    apply Sat.set
-    exact Sat.pure ⟨⟨hs.ne, hs.tabs, hs.walk, hs.loops, hs.consts.push (fun f hf => by cases hf),
-      hs.targets.mono (by simp)⟩,
-      Rel.of_same rfl rfl rfl, trivial⟩
+/-! ### the constant pool -/
 
+theorem findConst_spec {cs : Array Const} {k : CVal} {i : Nat} (h : findConst cs k = some i) :
+    i < cs.size ∧ ∃ v, cs[i]? = some (.val v) ∧ keyEq v k = true := by
+  have hlt := findConst_lt h
+  refine ⟨hlt, ?_⟩
+  unfold findConst at h
+  split at h
+  · cases h
+  · have hp := List.find?_some h
+    rw [getElem!_pos cs i hlt] at hp
+    split at hp
+    · rename_i v hv
+      refine ⟨v, by rw [Array.getElem?_eq_getElem hlt, hv], ?_⟩
+      simp at hp; exact hp.2
+    · cases hp
+
+theorem findFn_spec {cs : Array Const} {f : CFn} {i : Nat} (h : findFn cs f = some i) :
+    i < cs.size ∧ ∃ g, cs[i]? = some (.fn g) ∧ g.insts = f.insts := by
+  have hlt := findFn_lt h
+  refine ⟨hlt, ?_⟩
+  unfold findFn at h
+  have hp := List.find?_some h
+  rw [getElem!_pos cs i hlt] at hp
+  split at hp
+  · rename_i g hg
+    refine ⟨g, by rw [Array.getElem?_eq_getElem hlt, hg], ?_⟩
+    simp at hp
+    exact hp.1.2
+  · cases hp
+
+theorem inv_push_const {s : CState} (hs : Inv s) (c : Const) (hc : ∀ f, c = .fn f → FnOK (s.constants.push c) f) :
+    Inv { s with constants := s.constants.push c } ∧ Rel s { s with constants := s.constants.push c } :=
+  ⟨⟨hs.ne, hs.chain.mono (CPre.push _ _), hs.walk, hs.loops, hs.consts.push hc,
+     hs.targets.mono ⟨CPre.push _ _, Nat.le_refl _, Nat.le_refl _⟩, hs.bok⟩,
+   Rel.of_same (ChainLE.refl _) rfl rfl⟩
+
+/-- `addConstant`: the index returned names a value constant that is `k` (or the cached equal key) -/
 theorem sat_addConstant {k : CVal} {s : CState} {Q : Nat → CState → Prop} (hs : Inv s)
-    (h : ∀ i s', Inv s' → Rel s s' → i < s'.constants.size → s'.insts = s.insts → Q i s') :
+    (h : ∀ i s', Inv s' → Rel s s' → s'.insts = s.insts → s'.tables = s.tables →
+      (∃ v, s'.constants[i]? = some (.val v) ∧ (v = k ∨ keyEq v k = true)) → Q i s') :
     Sat (addConstant k) s Q := by
   unfold addConstant
   apply Sat.bind
   apply Sat.get
   split
   · rename_i i hi
-    exact Sat.pure (h i s hs (Rel.refl s) (findConst_lt hi) rfl)
+    obtain ⟨_, v, hv, hk⟩ := findConst_spec hi
+    exact Sat.pure (h i s hs (Rel.refl s) rfl rfl ⟨v, hv, .inr hk⟩)
   · apply Sat.bind
     apply Sat.set
     apply Sat.pure
-    exact h _ _ ⟨hs.ne, hs.tabs, hs.walk, hs.loops, hs.consts.push (fun f hf => by cases hf),
-      hs.targets.mono (by simp)⟩ (Rel.of_same rfl rfl rfl) (by simp) rfl
+    obtain ⟨hi, hr⟩ := inv_push_const hs (.val k) (fun f hf => by cases hf)
+    exact h _ _ hi hr rfl rfl ⟨k, by simp, .inl rfl⟩
 
+theorem good_addConstant (k : CVal) : Good (addConstant k) :=
+  fun _ hs => sat_addConstant hs fun _ _ h1 h2 _ _ _ => ⟨h1, h2, trivial⟩
+
+/-- `addCompiledFunction`: the index returned names a function with the same instructions -/
 theorem sat_addFnConstant {f : CFn} {s : CState} {Q : Nat → CState → Prop} (hs : Inv s)
-    (hf : FnOK s.constants.size f)
-    (h : ∀ i s', Inv s' → Rel s s' → i < s'.constants.size → s'.insts = s.insts → Q i s') :
+    (hf : ∀ cs', CPre s.constants cs' → FnOK cs' f)
+    (h : ∀ i s', Inv s' → Rel s s' → s'.insts = s.insts → s'.tables = s.tables →
+      (∃ g, s'.constants[i]? = some (.fn g) ∧ g.insts = f.insts) → Q i s') :
     Sat (addFnConstant f) s Q := by
   unfold addFnConstant
   apply Sat.bind
   apply Sat.get
   split
   · rename_i i hi
-    exact Sat.pure (h i s hs (Rel.refl s) (findFn_lt hi) rfl)
+    obtain ⟨_, g, hg, he⟩ := findFn_spec hi
+    exact Sat.pure (h i s hs (Rel.refl s) rfl rfl ⟨g, hg, he⟩)
   · apply Sat.bind
     apply Sat.set
     apply Sat.pure
-    refine h _ _ ⟨hs.ne, hs.tabs, hs.walk, hs.loops,
-      hs.consts.push (fun g hg => by injection hg with hg; subst hg; exact ⟨hf.1, hf.2.mono (by omega)⟩),
-      hs.targets.mono (by simp)⟩ (Rel.of_same rfl rfl rfl) (by simp) rfl
+    obtain ⟨hi, hr⟩ := inv_push_const hs (.fn f) (fun g hg => by injection hg with hg; subst hg; exact hf _ (CPre.push _ _))
+    exact h _ _ hi hr rfl rfl ⟨f, by simp, rfl⟩
 
-theorem goodP_resolve (name : String) : GoodP (fun r => ∀ y, r = some y → SymOK y) (resolve name) := by
-  intro s hs
+/-- `Resolve`: the symbol found is in range for the function being compiled (in the state after the call) -/
+theorem sat_resolve {name : String} {s : CState} {Q : Option Symbol → CState → Prop} (hs : Inv s)
+    (h : ∀ r s', Inv s' → Rel s s' → s'.insts = s.insts → s'.constants = s.constants →
+      (∀ y, r = some y → SymOKx s'.constants (fmd s'.tables) (fnf s'.tables) y) → Q r s') :
+    Sat (resolve name) s Q := by
   unfold resolve
   apply Sat.bind
   apply Sat.get
-  have hsp := resolveIn_spec s.builtins (rootDisabled s.tables) name hs.tabs
+  have hsp := resolveIn_chain s.constants s.builtins hs.bok (rootDisabled s.tables) name hs.chain
   cases hres : resolveIn s.builtins (rootDisabled s.tables) name s.tables with
   | mk r ts =>
     rw [hres] at hsp
     simp only at hsp ⊢
     apply Sat.bind
     apply Sat.set
-    refine Sat.pure ⟨hs.of_tables ?_ hsp.1 rfl rfl, Rel.of_same hsp.2.1 rfl rfl, hsp.2.2⟩
-    intro h
-    simp only at h
-    have := hsp.2.1
-    rw [h] at this
-    exact hs.ne (List.eq_nil_of_length_eq_zero this.symm)
+    apply Sat.pure
+    exact h r _ (hs.of_tables (ne_of_chainLE hsp.2.1 hs.ne) hsp.1 (limsOf_le_of_chain hsp.2.1 rfl) rfl rfl)
+      (Rel.of_same hsp.2.1 rfl rfl) rfl rfl hsp.2.2
 
+theorem good_resolve (name : String) : Good (resolve name) :=
+  fun _ hs => sat_resolve hs fun _ _ h1 h2 _ _ _ => ⟨h1, h2, trivial⟩
 
 /-! ### emit -/
 
-theorem Rel.of_pre {s s' : CState} (h1 : s'.tables.length = s.tables.length) (h2 : Pre s.insts s'.insts)
-    (h3 : s'.loops = s.loops) (h4 : s.constants.size ≤ s'.constants.size := by first | exact Nat.le_refl _ | simp) :
-    Rel s s' := by
-  refine ⟨h1, h2, by rw [h3], by rw [h3], ?_, h4⟩
+theorem Rel.of_pre {s s' : CState} (h1 : s'.tables = s.tables) (h2 : Pre s.insts s'.insts)
+    (h3 : s'.loops = s.loops) (h4 : s'.constants = s.constants) : Rel s s' := by
+  refine ⟨by rw [h1]; exact ChainLE.refl _, h2, by rw [h3], by rw [h3], ?_, by rw [h4]; exact CPre.refl _⟩
   intro l l' h h' p; rw [h3, h] at h'; injection h' with h'; subst h'; exact ⟨.inl, .inl⟩
 
 /-- transfer of a relation along states that agree on what the relation looks at -/
 theorem Rel.transfer {a b a' b' : CState} (h : Rel a b) (hi : a.insts = a'.insts) (hl : a.loops = a'.loops)
-    (hi' : b'.insts = b.insts) (hl' : b'.loops = b.loops) (ht : b'.tables.length = a'.tables.length)
-    (hc : a'.constants.size ≤ b'.constants.size) : Rel a' b' := by
+    (hi' : b'.insts = b.insts) (hl' : b'.loops = b.loops) (ht : ChainLE a'.tables b'.tables)
+    (hc : CPre a'.constants b'.constants) : Rel a' b' := by
   refine ⟨ht, by rw [← hi, hi']; exact h.pre, by rw [hl', ← hl]; exact h.llen, by rw [hl', ← hl]; exact h.ltail, ?_, hc⟩
   intro l l' h1 h2 p
   rw [← hl] at h1; rw [hl'] at h2
@@ -409,21 +366,25 @@ theorem pre_append (a : Array UInt8) (bs : List UInt8) : Pre a (a ++ bs.toArray)
   ⟨by simp, fun k hk => by simp [Array.getElem?_append, hk]⟩
 
 /-- operands that are fine for every stream: a jump-class instruction is emitted with the
-    placeholder 0, SETUPTRY with 0 0 -/
+    placeholder 0, SETUPTRY with 0 0, and no operand is an index -/
 def StaticArgs (op : Nat) (args : List Int) : Prop :=
-  (isJumpOp op = true → args = [0]) ∧ (op = OpSetupTry → args = [0, 0]) ∧ isConstOp op = false
+  (isJumpOp op = true → args = [0]) ∧ (op = OpSetupTry → args = [0, 0]) ∧ PlainIdx op
 
-theorem StaticArgs.argsOK {op : Nat} {args : List Int} (h : StaticArgs op args) (nc : Nat) (a : Array UInt8) :
-    ArgsOK nc a op args :=
+theorem PlainIdx.not_closure {op : Nat} (h : PlainIdx op) : op ≠ OpClosure := by
+  intro hc; have := h.2.2.2; rw [hc] at this; cases this
+
+theorem StaticArgs.argsOK {op : Nat} {args : List Int} (h : StaticArgs op args) (L : Lims) (a : Array UInt8) :
+    ArgsOK L a op args :=
   ⟨fun hj => ⟨0, by rw [h.1 hj]; rfl, .refl 0⟩, fun ht => ⟨0, 0, by rw [h.2.1 ht]; rfl, .refl 0, .refl 0⟩,
-   fun hc => by rw [h.2.2] at hc; cases hc⟩
+   fun i _ _ => h.2.2.opnd L i, fun hc => absurd hc h.2.2.not_closure⟩
 
 /-- `emit`: an error (never a panic) when the operands do not fit; otherwise the new instruction
     starts at the old end of the stream, which is a boundary of the new stream -/
 theorem sat_emit {pos : Pos} {op : Nat} {args : List Int} {s : CState} {Q : Nat → CState → Prop}
-    (hs : Inv s) (hop : op < numOpcodes) (harg : ArgsOK s.constants.size s.insts op args)
+    (hs : Inv s) (hop : op < numOpcodes) (harg : ArgsOK (limsOf s) s.insts op args)
     (h : ∀ s', Inv s' → Rel s s' → Bd s'.insts s.insts.size → s'.tables = s.tables →
-      (∃ opb, s'.insts[s.insts.size]? = some opb ∧ opb.toNat = op) → Q s.insts.size s') :
+      (∃ opb, s'.insts[s.insts.size]? = some opb ∧ opb.toNat = op) →
+      s'.insts.size = s.insts.size + 1 + opWidth op → s'.constants = s.constants → Q s.insts.size s') :
     Sat (emit pos op args) s Q := by
   unfold emit
   rw [if_neg (by omega)]
@@ -445,24 +406,42 @@ theorem sat_emit {pos : Pos} {op : Nat} {args : List Int} {s : CState} {Q : Nat 
     apply Sat.pure
     have hpre := pre_append s.insts (UInt8.ofNat op :: rest)
     apply h
-    · exact ⟨hs.ne, hs.tabs, Walk.append_inst hs.walk hop hl,
-        fun l hl p hp => ⟨(hs.loops l hl p hp).1.pre hpre, (hs.loops l hl p hp).2.pre hpre⟩, hs.consts, htg⟩
-    · exact Rel.of_pre rfl hpre rfl
+    · exact ⟨hs.ne, hs.chain, Walk.append_inst hs.walk hop hl,
+        fun l hl p hp => ⟨(hs.loops l hl p hp).1.pre hpre, (hs.loops l hl p hp).2.pre hpre⟩, hs.consts, htg, hs.bok⟩
+    · exact Rel.of_pre rfl hpre rfl rfl
     · exact Bd.append_inst hs.walk
     · rfl
     · refine ⟨UInt8.ofNat op, by simp [Array.getElem?_append], ?_⟩
       simp [UInt8.toNat_ofNat']
       unfold numOpcodes at hop
       omega
+    · simp [hl]; omega
+    · rfl
 
 theorem good_emit {pos : Pos} {op : Nat} {args : List Int} (hop : op < numOpcodes) (ha : StaticArgs op args) :
     Good (emit pos op args) :=
-  fun s hs => sat_emit hs hop (ha.argsOK _ s.insts) fun _ h1 h2 _ _ _ => ⟨h1, h2, trivial⟩
+  fun s hs => sat_emit hs hop (ha.argsOK _ s.insts) fun _ h1 h2 _ _ _ _ _ => ⟨h1, h2, trivial⟩
 
 theorem good_emit_ {pos : Pos} {op : Nat} {args : List Int} (hop : op < numOpcodes) (ha : StaticArgs op args) :
     Good (emit_ pos op args) := by
   unfold emit_
   exact GoodP.bind (good_emit hop ha) fun _ _ => GoodP.pure trivial
+
+/-- `emit_` of an instruction whose first operand is an index that is fine in the current state -/
+theorem sat_emit_idx {pos : Pos} {op : Nat} {i : Int} {s : CState} (hs : Inv s) (hop : op < numOpcodes)
+    (hj : isJumpOp op = false) (ht : op ≠ OpSetupTry) (hc : op ≠ OpClosure)
+    (hi : ∀ n : Nat, i = (n : Int) → Opnd1OK (limsOf s) op n) :
+    Sat (emit_ pos op [i]) s (fun _ s' => Inv s' ∧ Rel s s' ∧ True) := by
+  unfold emit_
+  apply Sat.bind
+  apply sat_emit hs hop
+  · refine ⟨fun c => ?_, fun c => absurd c ht, ?_, fun c => absurd c hc⟩
+    · rw [hj] at c; cases c
+    · intro n rest hn
+      injection hn with hn _
+      exact hi n hn
+  · intro s' h1 h2 _ _ _ _ _
+    exact Sat.pure ⟨h1, h2, trivial⟩
 
 /-! ### sequences that patch earlier instructions -/
 
@@ -515,7 +494,7 @@ theorem st_curPos_bind {β} {f : Nat → CM β} {s0 s : CState} {ps ts : List Na
 /-- the arguments of an instruction are tracked boundaries (or 0) -/
 def ArgsIn (ts : List Nat) (args : List Int) : Prop := ∀ x ∈ args, ∃ t : Nat, x = (t : Int) ∧ (t = 0 ∨ t ∈ ts)
 
-theorem ArgsIn.argsOK {ts : List Nat} {args : List Int} {a : Array UInt8} {op nc : Nat} (h : ArgsIn ts args)
+theorem ArgsIn.argsOK {ts : List Nat} {args : List Int} {a : Array UInt8} {op : Nat} {nc : Lims} (h : ArgsIn ts args)
     (hts : ∀ t ∈ ts, Walk a 0 t) (hlen : (operandWidths op).length = args.length)
     (hj : isJumpOp op = true ∨ op = OpSetupTry) : ArgsOK nc a op args := by
   have hw : ∀ x ∈ args, ∃ t : Nat, x = (t : Int) ∧ Walk a 0 t := by
@@ -525,7 +504,7 @@ theorem ArgsIn.argsOK {ts : List Nat} {args : List Int} {a : Array UInt8} {op nc
     rcases h0 with h0 | h0
     · subst h0; exact .refl 0
     · exact hts t h0
-  refine ⟨?_, ?_, ?_⟩
+  refine ⟨?_, ?_, fun i _ _ => (jumpy_plain hj).opnd nc i, fun hc => absurd hc (jumpy_plain hj).not_closure⟩
   · intro hj
     rw [isJumpOp_widths hj] at hlen
     match args, hlen, hw with
@@ -541,16 +520,6 @@ theorem ArgsIn.argsOK {ts : List Nat} {args : List Int} {a : Array UInt8} {op nc
       obtain ⟨t1, ht1, hw1⟩ := hw x (by simp)
       obtain ⟨t2, ht2, hw2⟩ := hw y (by simp)
       exact ⟨t1, t2, by rw [ht1, ht2], hw1, hw2⟩
-  · intro hc
-    rw [jumpy_not_const hj] at hc
-    cases hc
-
-theorem makeInstruction_len {op : Nat} {args : List Int} {bs : List UInt8} (h : makeInstruction op args = .ok bs) :
-    (operandWidths op).length = args.length := by
-  unfold makeInstruction at h
-  split at h
-  · cases h
-  · rename_i hl; simpa using hl
 
 /-- `emit` of an instruction whose position is only used as a jump *target* (and of any
     instruction whose position is not used): the position becomes a tracked boundary -/
@@ -563,12 +532,12 @@ theorem st_emit_tgt_bind {β} {pos : Pos} {op : Nat} {args : List Int} {f : Nat 
   apply Sat.bind
   by_cases hm : ∃ bs, makeInstruction op args = .ok bs
   · obtain ⟨bs, hm⟩ := hm
-    have harg : ArgsOK s.constants.size s.insts op args := by
+    have harg : ArgsOK (limsOf s) s.insts op args := by
       rcases ha with ha | ha
       · exact ha.argsOK _ _
       · exact ha.1.argsOK hst.tgt (makeInstruction_len hm) ha.2
     apply sat_emit hst.inv hop harg
-    intro s' h1 h2 h3 _ h5
+    intro s' h1 h2 h3 _ h5 _ _
     have h4 := hst.step h1 h2
     apply h
     · refine ⟨h4.inv, h4.rel, h4.pend, ?_⟩
@@ -658,10 +627,11 @@ theorem st_changeOperand {p : Nat} {args : List Int} {s0 s : CState} {ps ts : Li
       intro q ⟨hq, ⟨oq, hoq, hjq⟩⟩
       exact ⟨⟨hwalk q hq.1, by rw [size_patch]; exact hq.2⟩,
         oq, by rw [Walk.patch_get hq.1 hbd.1 hop hl]; exact hoq, hjq⟩
-    refine ⟨⟨hst.inv.ne, hst.inv.tabs, ?_, fun l hl q hq => hbd' q (hst.inv.loops l hl q hq), hst.inv.consts, htg⟩, ?_, ?_, ?_⟩
+    refine ⟨⟨hst.inv.ne, hst.inv.chain, ?_, fun l hl q hq => hbd' q (hst.inv.loops l hl q hq), hst.inv.consts, htg,
+      hst.inv.bok⟩, ?_, ?_, ?_⟩
     · have := hwalk _ hst.inv.walk
       simpa [size_patch] using this
-    · refine ⟨hst.rel.tlen, Pre.patch hst.rel.pre hge, hst.rel.llen, hst.rel.ltail, hst.rel.lhead, hst.rel.csz⟩
+    · refine ⟨hst.rel.chain, Pre.patch hst.rel.pre hge, hst.rel.llen, hst.rel.ltail, hst.rel.lhead, hst.rel.cpre⟩
     · intro q hq
       exact ⟨hbd' q (hst.pend q hq).1, (hst.pend q hq).2⟩
     · intro t ht
